@@ -688,25 +688,18 @@ func (x *lgX) classifyHandle(fn *lgFn) *lgHandleInfo {
 			}
 			return true
 		})
-		if bufIf == nil {
-			return info
-		}
-		info.bufIf = bufIf
+		info.bufIf = bufIf // may be nil: the early-return form `if !buffering { unlock; return delegate }; append…; return nil`
+		// every return either hands the record to the wrapped handler or reports success after buffering it
 		ok := false
 		for _, r := range returns {
-			inside := false
-			for _, a := range retStack[r] {
-				if a == ast.Node(bufIf.Body) {
-					inside = true
-				}
-			}
-			if inside {
+			if isDelegReturn(r) {
+				ok = true
 				continue
 			}
-			if !isDelegReturn(r) {
-				return info
+			if len(r.Results) == 1 && lgIdent(r.Results[0], "nil") {
+				continue
 			}
-			ok = true
+			return info
 		}
 		if ok {
 			info.class = "buffers"
